@@ -9,6 +9,9 @@ unmodified headers).  Agents:
   `resolve` (xchg on `_awaiter` := ready), walk over the detached chain;
 * the destructor agent: `~promise` (load `_owner`; resolve without payload), enabled once every resolver call
   returned (a destructor racing a member call is outside C++ object lifetime);
+* the destructor agent of a `promise_with_default` / `_v` / `_vp` (`Kind.ddef v`): `this->set_value(def)` — `claim`
+  (xchg on `_owner`), `future::set(def)`, `resolve`, walk, the suspend point is flushed — followed by the base `~promise`
+  (load `_owner`), same lifetime rule;
 * waiters: coroutine `co_await`, blocking `wait()`, callback awaiter, `has_value()` awaiter:
   `ready()` load, `subscribe_check_ready` CAS loop, (blocking) `flag.wait`.
 
@@ -33,6 +36,7 @@ inductive WK where
 
 inductive Kind where
   | res (k : RK) | dtor | wait (k : WK)
+  | ddef (v : Nat)     -- destruction of a `promise_with_default` whose default value is `v`
   deriving DecidableEq, Repr, Inhabited
 
 def RK.payload : RK → Outcome
@@ -68,6 +72,7 @@ inductive Pc where
   | rResolve (dt : Bool)                     -- winner (or destructor): set payload, `resolve()` exchange
   | rRun (dt : Bool) (acts : List Act)       -- walking the detached chain / resuming collected coroutines
   | dArrive | dBlocked | dFin                -- destructor agent
+  | dLoad                                    -- `~promise_with_default` lost its claim: base `~promise` loads `_owner`
   | wLoad                                    -- waiter: `ready()` load
   | wCas (exp : Seen)                        -- `subscribe_check_ready` CAS with expected value `_next`
   | wFinParked                               -- subscribed (non-blocking kinds): thread returns
@@ -124,6 +129,7 @@ def initPc : Kind → Pc
   | Kind.res _ => Pc.rClaim
   | Kind.dtor => Pc.dArrive
   | Kind.wait _ => Pc.wLoad
+  | Kind.ddef _ => Pc.dArrive
 
 def init (c : Cfg) : State := { pc := fun i => if i < c.n then initPc (c.kind i) else Pc.done }
 
@@ -186,10 +192,39 @@ def runActs (c : Cfg) (t : Nat) : State → List Act → State × List Ev × Lis
       let r := runActs c t s2 rest
       (r.1, Ev.obs x (obsOf s (wkOf c x) seen) :: r.2.1, r.2.2.1, r.2.2.2)
 
+/-- `~promise`: load `_owner`; if it is still set, resolve the future without a payload -/
+def dtorLoad (s : State) (t : Nat) : State × List Ev :=
+  if s.owner then
+    ({ setPc s t (Pc.rResolve true) with owner := false, wins := s.wins + 1, winner := some t },
+     [Ev.opLoadOwner t true])
+  else (setPc s t Pc.dFin, [Ev.opLoadOwner t false])
+
+/-- `~promise_with_default`: `set_value(def)` starts with `claim()`; a lost claim leaves only the base destructor -/
+def ddefClaim (s : State) (t : Nat) : State × List Ev :=
+  if s.owner then
+    ({ setPc s t (Pc.rResolve false) with owner := false, wins := s.wins + 1, winner := some t },
+     [Ev.opXchgOwner t true])
+  else (setPc s t Pc.dLoad, [Ev.opXchgOwner t false])
+
+/-- first operation of a destructor agent once the resolver calls have returned -/
+def dtorEnter (c : Cfg) (s : State) (t : Nat) : State × List Ev :=
+  match c.kind t with
+  | Kind.ddef _ => ddefClaim s t
+  | _ => dtorLoad s t
+
+/-- the walker has nothing left to do: a resolver call returns `true`, the destructor returns, and
+`~promise_with_default` goes on with the base `~promise` (its `_owner` load is the step's operation) -/
+def finishRun (c : Cfg) (s : State) (t : Nat) (dt : Bool) (evs : List Ev) : State × List Ev :=
+  if dt then (setPc s t Pc.done, evs ++ [Ev.fin t])
+  else
+    match c.kind t with
+    | Kind.ddef _ => ((dtorLoad s t).1, evs ++ (dtorLoad s t).2)
+    | _ => (setPc s t Pc.done, evs ++ [Ev.ret t true, Ev.fin t])
+
 def stepRun (c : Cfg) (s : State) (t : Nat) (dt : Bool) (acts : List Act) : State × List Ev :=
   let r := runActs c t s acts
   if r.2.2.2 then (setPc r.1 t (Pc.rRun dt r.2.2.1), r.2.1)
-  else (setPc r.1 t Pc.done, r.2.1 ++ (if dt then [] else [Ev.ret t true]) ++ [Ev.fin t])
+  else finishRun c r.1 t dt r.2.1
 
 def chainOf : Slot → List Nat
   | Slot.chain l => l
@@ -218,22 +253,16 @@ def astep (c : Cfg) (s : State) (t : Nat) : State × List Ev :=
       let pay := if dt then s.payload else
         match c.kind t with
         | Kind.res k => k.payload
+        | Kind.ddef v => Outcome.val v
         | _ => s.payload
       ({ setPc s t (Pc.rRun dt (buildActs c (chainOf s.slot))) with payload := pay, slot := Slot.ready },
        [Ev.opXchgSlot t s.slot.seen])
   | Pc.rRun dt acts => stepRun c s t dt acts
   | Pc.dArrive =>
-      if resolversDone c s then
-        if s.owner then
-          ({ setPc s t (Pc.rResolve true) with owner := false, wins := s.wins + 1, winner := some t },
-           [Ev.opLoadOwner t true])
-        else (setPc s t Pc.dFin, [Ev.opLoadOwner t false])
+      if resolversDone c s then dtorEnter c s t
       else (setPc s t Pc.dBlocked, [Ev.dBlock t])
-  | Pc.dBlocked =>
-      if s.owner then
-        ({ setPc s t (Pc.rResolve true) with owner := false, wins := s.wins + 1, winner := some t },
-         [Ev.opLoadOwner t true])
-      else (setPc s t Pc.dFin, [Ev.opLoadOwner t false])
+  | Pc.dBlocked => dtorEnter c s t
+  | Pc.dLoad => dtorLoad s t
   | Pc.dFin => (setPc s t Pc.done, [Ev.fin t])
   | Pc.wLoad =>
       if s.slot = Slot.ready then (setPc s t Pc.wRead, [Ev.opLoadSlot t Seen.ready])
